@@ -499,6 +499,44 @@ def r09f(rep, F):
     rep.require_count('R09f', 'comparator functors', n, 1)
 
 
+def r09j(rep, F):
+    rep.rule('R09j', 'ordering functors over elements that carry a state space (the keys of std::set<SubstateLocation>, by which '
+                     'getCommonSubspaces collects the subspaces two spaces share): among the keys the functor compares there is one '
+                     'that separates any two distinct spaces -- the space name (unique per space in the library: StateSpace::setName) '
+                     'or the space pointer.  Ties broken only on dimension / type make two equal-shaped sibling subspaces equivalent; '
+                     'std::set keeps one of them and copyStateData(…, subspaces) silently transfers only that one')
+    n = 0
+    for f in F.functions:
+        if not f.name.endswith('::operator()') or len(f.params) != 2 or f.d['ret'] != 'bool' or f.d.get('lambda_of') is not None:
+            continue
+        if f.params[0]['ty'] != f.params[1]['ty'] or not f.file.startswith(facts.SRC) or '(lambda' in f.name:
+            continue
+        cmps = [x for x in f.walk() if (x['k'] == 'BinaryOperator' and x.get('op') in ('<', '>', '<=', '>=', '==', '!=')) or
+                (x['k'] == 'CXXOperatorCallExpr' and x.get('oop') in ('<', '>', '<=', '>=', '==', '!='))]
+        keys = set()
+        for c in cmps:
+            for side in c['ch'][-2:]:
+                fp = f.fp(side)
+                if '.space' not in fp:
+                    continue
+                sn = f.strip(side)
+                if sn is not None and sn.get('callee'):
+                    keys.add(sn['callee'].split('::')[-1])
+                elif sn is not None and sn['k'] == 'MemberExpr' and sn.get('name') == 'space':
+                    keys.add('<pointer>')
+                else:
+                    keys.add(nofp(fp)[:40])
+        if not keys:
+            continue
+        n += 1
+        ok = bool(keys & {'getName', '<pointer>'})
+        rep.add('R09j', f.name, 'separates-distinct-spaces', ok, f.loc,
+                'compares %s: distinct spaces are never equivalent' % sorted(keys) if ok else
+                'compares only %s: two distinct subspaces with the same values of these keys are equivalent, and a std::set keyed by this '
+                'functor keeps only one of them' % sorted(keys))
+    rep.require_count('R09j', 'space-keyed ordering functors', n, 1)
+
+
 class SortAfterAppend(paths.Client):
     track = 'none'
 
@@ -619,3 +657,4 @@ def run(rep):
     r09g(rep, F)
     r09h(rep, F)
     r09i(rep, F)
+    r09j(rep, F)
